@@ -108,9 +108,11 @@ class Terms:
         elif len(plain) == 2:
             s1, s2 = plain[0][0], plain[1][0]
             i1, i2 = P.parent(s1), P.parent(s2)
-            if isinstance(i1, ast.If) and i1 is i2 and s1 in i1.body and s2 in i1.orelse:
+            if isinstance(i1, ast.If) and i1 is i2 and ((s1 in i1.body and s2 in i1.orelse) or (s2 in i1.body and s1 in i1.orelse)):
+                # (source order says nothing about which branch a statement is in once if/else were canonicalised)
+                pb, po = (plain[0], plain[1]) if s1 in i1.body else (plain[1], plain[0])
                 c = self._cond(fn, i1.test, env)
-                a, b = self._t(fn, plain[0][1], env, depth + 1), self._t(fn, plain[1][1], env, depth + 1)
+                a, b = self._t(fn, pb[1], env, depth + 1), self._t(fn, po[1], env, depth + 1)
                 base = a if c is True else (b if c is False else ("ALT", ("LEAF", norm(i1.test)), a, b))
             elif isinstance(i2, ast.If) and s2 in i2.body and not i2.orelse and P.parent(s1) is P.parent(i2):
                 # x = A ; if c: x = B
